@@ -1120,6 +1120,9 @@ func (w *World) mapRangeOrderDependence(f *ssa.Function, rg *ssa.Range) string {
 				if isEmitSink(sc) {
 					return "the loop prints generator output: " + w.Fset.Position(ins.Pos()).String()
 				}
+				if isLogSink(sc) {
+					return "the loop prints a log line per element: " + w.Fset.Position(ins.Pos()).String()
+				}
 				if w.InModule(sc) {
 					fm, top := w.mods.MayEmit(sc)
 					if top || len(fm) > 0 {
@@ -1133,7 +1136,106 @@ func (w *World) mapRangeOrderDependence(f *ssa.Function, rg *ssa.Range) string {
 			}
 		}
 	}
+	// a return from inside the loop whose result is computed from the element being visited: which element that is
+	// depends on the order unless at most one element can get there (not decided here)
+	var elems []ssa.Value
+	for _, r := range *next.Referrers() {
+		if ex, ok := r.(*ssa.Extract); ok && ex.Index > 0 {
+			elems = append(elems, ex)
+		}
+	}
+	dependsOnElem := func(v ssa.Value) bool {
+		seen := map[ssa.Value]bool{}
+		var walk func(x ssa.Value, depth int) bool
+		walk = func(x ssa.Value, depth int) bool {
+			if x == nil || seen[x] || depth > 12 {
+				return false
+			}
+			seen[x] = true
+			for _, e := range elems {
+				if x == e {
+					return true
+				}
+			}
+			ins, ok := x.(ssa.Instruction)
+			if !ok {
+				return false
+			}
+			if _, isPhi := x.(*ssa.Phi); isPhi {
+				return false
+			}
+			for _, op := range ins.Operands(nil) {
+				if op != nil && *op != nil && walk(*op, depth+1) {
+					return true
+				}
+			}
+			// a value read from a cell that the loop fills from the element (varargs packs, boxed operands)
+			if u, ok := x.(*ssa.UnOp); ok && u.Op == token.MUL {
+				_ = u
+			}
+			if al, ok := x.(*ssa.Alloc); ok && al.Referrers() != nil {
+				for _, r := range *al.Referrers() {
+					switch y := r.(type) {
+					case *ssa.Store:
+						if walk(y.Val, depth+1) {
+							return true
+						}
+					case *ssa.IndexAddr:
+						if y.Referrers() != nil {
+							for _, r2 := range *y.Referrers() {
+								if st, ok := r2.(*ssa.Store); ok && walk(st.Val, depth+1) {
+									return true
+								}
+							}
+						}
+					}
+				}
+			}
+			return false
+		}
+		return walk(v, 0)
+	}
+	for _, b := range f.Blocks {
+		if !body[b.Index] || len(b.Instrs) == 0 {
+			continue
+		}
+		for _, succ := range b.Succs {
+			if body[succ.Index] || len(succ.Instrs) == 0 {
+				continue
+			}
+			// an exit edge of the loop other than the normal exit at the head
+			if b == head {
+				continue
+			}
+			if ret, ok := succ.Instrs[len(succ.Instrs)-1].(*ssa.Return); ok && len(succ.Preds) == 1 {
+				for _, r := range ret.Results {
+					if dependsOnElem(r) {
+						return "the loop returns a value computed from the element it is visiting: " + w.Fset.Position(ret.Pos()).String()
+					}
+				}
+			}
+		}
+		if ret, ok := b.Instrs[len(b.Instrs)-1].(*ssa.Return); ok {
+			for _, r := range ret.Results {
+				if dependsOnElem(r) {
+					return "the loop returns a value computed from the element it is visiting: " + w.Fset.Position(ret.Pos()).String()
+				}
+			}
+		}
+	}
 	return ""
+}
+
+// isLogSink: zerolog events written per call (diagnostics on stderr).
+func isLogSink(f *ssa.Function) bool {
+	if f.Signature.Recv() == nil {
+		return false
+	}
+	switch f.Name() {
+	case "Msg", "Msgf", "Send":
+		return typeKey(types.Unalias(f.Signature.Recv().Type())) == "*zerolog.Event"
+	}
+	return false
 }
 
 // sliceClassOf: slice values of f that may share a backing array with v (phi, reslice, type change, append chains).
